@@ -815,7 +815,7 @@ def run(run):
     run.assumptions += [
         'CPython float()/repr(float) are the trusted text<->double codec (model carries reals as text; compared by bit pattern)',
         'Python re `\\w`, str.lower(), str.casefold() for non-ASCII characters are a table computed by the real Python per request',
-        'CIMDateTime value semantics are C06; here only whether the constructor accepts a text (model: dtAccepts, ASCII digits)',
+        'CIMDateTime value semantics are C06; here only whether the constructor accepts a text (model: dtAccepts = the [0-9], [+-], \\Z-anchored patterns of /repo HEAD)',
         'str.lower() is applied character-wise in the model (generator alphabet avoids the one context-sensitive case, capital sigma)',
     ]
     batch = Batch(run)
